@@ -139,6 +139,64 @@ def unit_deterministic(ctx, kind):
                 check_config(ctx, None, {"kind": kind, "complex": cplx, "shape": list(shape), "signal_power": ps, "seed": ctx.seed})
 
 
+def unit_reuse(ctx):
+    """one channel object, several calls (complex, complex, real, complex): every call delivers the configured power; the parameter
+    may be a float or a 0-dim tensor (the channels accept both) and a caller's tensor is not modified."""
+    import torch
+    import kaira.channels as C
+    rng = np.random.RandomState(ctx.seed + 21)
+    for kind in ("awgn", "laplacian", "nonlinear_id", "fading_stage"):
+        for mode, value in (("power", 0.3), ("snr", 6.0)):
+            for as_tensor in (False, True):
+                param = torch.tensor(value) if as_tensor else value
+                kw = {"avg_noise_power": param} if mode == "power" else {"snr_db": param}
+                cell = {"channel": kind, "mode": mode, "param": "tensor" if as_tensor else "float", "clause_group": "reuse"}
+                case = {"kind": kind, "mode": mode, "value": value, "tensor_param": as_tensor}
+                try:
+                    if kind == "awgn":
+                        ch = C.AWGNChannel(**kw)
+                    elif kind == "laplacian":
+                        ch = C.LaplacianChannel(**kw)
+                    elif kind == "nonlinear_id":
+                        ch = C.NonlinearChannel(lambda t: t, add_noise=True, **kw)
+                    else:
+                        ch = C.FlatFadingChannel("rayleigh", coherence_time=1, **kw)
+                except Exception as e:  # noqa: BLE001
+                    ctx.cls("reuse_constructor_rejects_" + ("tensor" if as_tensor else "float"))
+                    continue
+                ref = []
+                ok_all = True
+                for call_no, cplx in enumerate((True, True, False, True)):
+                    x = gen_signal((20000,), 1.0, cplx, rng)
+                    torch.manual_seed(500 + call_no)
+                    try:
+                        y = ch(x, csi=torch.ones(1, dtype=torch.complex64)) if kind == "fading_stage" else ch(x)
+                    except Exception as e:  # noqa: BLE001
+                        if as_tensor:
+                            ctx.cls("reuse_tensor_param_rejected_at_call")
+                        else:
+                            ctx.ev()
+                            ctx.fail("C07.raises", cell, {**case, "call": call_no}, f"{type(e).__name__}: {str(e)[:120]}", "no exception", checker="c07:replay_reuse")
+                        ok_all = False
+                        break
+                    s_ = stage_signal(kind, x)
+                    n = (y - s_).detach().numpy()
+                    P = value if mode == "power" else p64(s_) / 10 ** (value / 10)
+                    pwr = float(np.mean(np.abs(n) ** 2))
+                    vf = 5.0 if kind == "laplacian" else 2.0
+                    ctx.ev()
+                    ctx.nontrivial(cell, call_no)
+                    ctx.check(abs(pwr / P - 1) <= Z * np.sqrt(vf / n.size) + 1e-3, "C07.f_noise_power_every_call", cell, {**case, "call": call_no}, {"measured": pwr, "ratio": pwr / P}, {"configured": P},
+                              "a later call on the same channel object does not add the configured noise power", "c07:replay_reuse")
+                if as_tensor and ok_all:
+                    ctx.check(abs(float(param) - value) < 1e-6 * abs(value), "C07.param_unmodified", cell, case, float(param), value, "the caller's parameter tensor was modified by the channel", "c07:replay_reuse")
+    ctx.sample({"reuse": "4 calls per channel object (complex, complex, real, complex); float and 0-dim tensor parameters"})
+
+
+def replay_reuse(ctx, cell, case):
+    unit_reuse(ctx)
+
+
 def unit_verbatim(ctx):
     """(a) caller-supplied noise is added verbatim."""
     import torch
@@ -282,7 +340,7 @@ def unit_stat(ctx, kind, configs, N):
 def units(tier, seed):
     T = tier == "thorough"
     N = 32_000_000 if T else 4_000_000
-    us = [Unit("verbatim", "c07:unit_verbatim", {}, 1), Unit("conversions", "c07:unit_conversions", {}, 1)]
+    us = [Unit("verbatim", "c07:unit_verbatim", {}, 1), Unit("conversions", "c07:unit_conversions", {}, 1), Unit("reuse", "c07:unit_reuse", {}, 2)]
     for kind in ("awgn", "laplacian", "nonlinear_id", "nonlinear_cubic", "fading_stage"):
         us.append(Unit(f"deterministic_{kind}", "c07:unit_deterministic", {"kind": kind}, 3))
     cfgs = []
